@@ -14,3 +14,16 @@ impl MaxConnCounterKey {
 #[verifier::reject_recursive_types(T)]
 pub struct FutReady<T> { pub val: Option<T> }
 pub fn ready<T>(t: T) -> (r: FutReady<T>) ensures r.val == Some(t) { FutReady { val: Some(t) } }
+/// accept/mod.rs `static MAX_CONN: AtomicUsize` (the configured per-thread limit) and `Counter::new`: a NEW counter is
+/// not this thread's shared counter
+pub struct MaxConn { }
+pub const MAX_CONN: MaxConn = MaxConn { };
+pub enum Ordering { Relaxed, SeqCst }
+impl MaxConn { #[verifier::external_body] pub fn load(&self, o: Ordering) -> (r: usize) { unimplemented!() } }
+pub uninterp spec fn fresh_counter_id(n: usize) -> int;
+#[verifier::external_body]
+pub proof fn axiom_fresh_counter(n: usize) ensures fresh_counter_id(n) != thread_counter_id() { }
+impl Counter {
+    #[verifier::external_body]
+    pub fn new(n: usize) -> (r: Counter) ensures r.id() == fresh_counter_id(n), r.capacity() == n, r.count() == 0 { unimplemented!() }
+}
